@@ -50,7 +50,8 @@ def detect(d, ids, tier="quick"):
     """run checks against the seeded change applied to a scratch worktree of /repo HEAD (VF_REPO points the
     checks at it; /repo itself is never touched, so several detections may run at once)"""
     d = os.path.abspath(d)
-    wt = "/tmp/det-%d" % os.getpid()
+    import threading
+    wt = "/tmp/det-%d-%d" % (os.getpid(), threading.get_ident() % 100000)
     r = sh(["git", "-C", "/repo", "worktree", "add", "-q", "--detach", wt, "HEAD"])
     assert r.returncode == 0, r.stderr
     out = {}
@@ -59,7 +60,7 @@ def detect(d, ids, tier="quick"):
         assert r.returncode == 0, r.stderr
         for i in ids:
             t0 = time.time()
-            env = dict(os.environ, VF_NO_EVIDENCE="1", VF_REPO=wt, VF_REPLAY_TAG="%d" % os.getpid())
+            env = dict(os.environ, VF_NO_EVIDENCE="1", VF_REPO=wt, VF_REPLAY_TAG=os.path.basename(wt)[4:])
             r = subprocess.run([os.path.join(HERE, "check"), i, "--tier", tier], capture_output=True, text=True, env=env)
             lines = [l for l in r.stdout.splitlines() if l.startswith(("VIOLATION", "  cause="))]
             out[i] = {"rc": r.returncode, "wall": round(time.time() - t0, 1), "lines": [l[:300] for l in lines[:6]]}
@@ -113,6 +114,7 @@ def matrix(ids=None, tier="quick", pattern="*-*m*"):
         rows = json.load(open(mp))
     only = [i for i in (ids or []) if "-" in i]
     ids = [i for i in (ids or []) if "-" not in i] or None
+    todo = []
     for d in sorted(glob.glob(os.path.join(HERE, "seeded", pattern))):
         if only and os.path.basename(d) not in only:
             continue
@@ -120,10 +122,20 @@ def matrix(ids=None, tier="quick", pattern="*-*m*"):
         pid = name.split("-")[0]
         if ids and pid not in ids:
             continue
+        todo.append((d, name, pid))
+
+    def one(t):
         try:
-            r = detect(d, [pid], tier)
+            return detect(t[0], [t[2]], tier)
         except AssertionError as e:
-            rows[name] = {"error": str(e)[:200]}
+            return {"error": str(e)[:200]}
+    from concurrent.futures import ThreadPoolExecutor
+    with ThreadPoolExecutor(int(os.environ.get("MATRIX_JOBS", "3"))) as ex:
+        results = list(ex.map(one, todo))
+    for (d, name, pid), r in zip(todo, results):
+        if "error" in r:
+            rows[name] = r
+            print(name, "ERROR", r["error"], flush=True)
             continue
         rows[name] = {"check": pid, "rc": r[pid]["rc"], "wall": r[pid]["wall"],
                       "causes": [l.strip()[:160] for l in r[pid]["lines"] if l.strip().startswith("cause=")][:3]}
